@@ -73,6 +73,7 @@ type Obligation struct {
 	File    string
 	Info    map[string]*Term // values worth printing from a model
 	JetHyp  []*Term          // jet-level obligations: complete hypothesis list
+	Bounded bool             // obligation of a bounded (fixed-size) case: never counted as proved
 }
 
 type unsupported struct{ msg string }
